@@ -9,6 +9,7 @@ import (
 	"strconv"
 	"strings"
 	"sync"
+	"sync/atomic"
 	"time"
 )
 
@@ -17,8 +18,15 @@ import (
 // service every such operation is preceded by vrtGate(kind): the calling goroutine waits there
 // until the trace says it is its turn and the operation released before it has taken effect (its
 // goroutine has reached its next gate, has finished, or - for operations the executor saw block -
-// a short grace period has passed). Goroutines are identified by creation order, which the gates
-// make deterministic. After the end of the trace everything runs freely.
+// a short grace period has passed). The trace also says where a parked goroutine went on (or a new
+// one started) in the executor ("resume" events): no gate corresponds to these; whoever is waiting
+// consumes them, and from then on nothing else is released until that goroutine has reached its
+// next gate or has finished - so the harness never looks at state that a goroutine woken by an
+// earlier operation is still about to change. What remains concurrent natively is the stretch
+// between the operation that wakes a goroutine and that goroutine's resume event; state the
+// harness's own callbacks share between goroutines is therefore locked. Goroutines are
+// identified by creation order, which the gates make deterministic. After the end of the trace
+// everything runs freely.
 
 type vrtSchedState struct {
 	mu        sync.Mutex
@@ -35,21 +43,22 @@ type vrtSchedState struct {
 	lastAt    time.Time
 	wakeGen   int
 	sel       map[int]*int // per goroutine: the clause its current select must take (nil: free)
+	awaiting  map[int]bool // goroutines parked in vrtAwaitTurn: they take their resume event themselves
 	diverged  string
 }
 
 // the wall clock (the replay overlay redirects the harness files' literal time.Now calls to the script)
 var vrtWall = time.Now
 
-// debugging aid (read natively on first use; package initialisers also run inside the executor)
-var vrtSchedDebug bool
+// debugging aid (read natively on load; package initialisers also run inside the executor)
+var vrtSchedDebug atomic.Bool
 
-var vrtSS = &vrtSchedState{ids: map[int64]int{}, atGate: map[int]bool{}, done: map[int]bool{}, sel: map[int]*int{}, nextID: 1}
+var vrtSS = &vrtSchedState{ids: map[int64]int{}, atGate: map[int]bool{}, done: map[int]bool{}, sel: map[int]*int{}, awaiting: map[int]bool{}, nextID: 1}
 
 func init() {
 	vrtDivergedHook = vrtSchedDiverged
 	vrtOnLoad = func() {
-		vrtSchedDebug = os.Getenv("VERIF_SCHED_DEBUG") != ""
+		vrtSchedDebug.Store(os.Getenv("VERIF_SCHED_DEBUG") != "")
 		s := vrtSS
 		s.mu.Lock()
 		defer s.mu.Unlock()
@@ -62,6 +71,7 @@ func init() {
 		s.atGate = map[int]bool{}
 		s.done = map[int]bool{}
 		s.sel = map[int]*int{}
+		s.awaiting = map[int]bool{}
 		s.last = -1
 		s.wakeGen++
 		s.diverged = ""
@@ -105,7 +115,25 @@ func (s *vrtSchedState) settled() bool {
 	if s.lastBlk {
 		return d > 5*time.Millisecond
 	}
-	return d > 400*time.Millisecond
+	return d > vrtRunGrace
+}
+
+// vrtRunGrace: how long the replay waits for a goroutine that the trace says is running to reach
+// its next gate or to finish before it goes on regardless (a safety net: in a faithful replay the
+// goroutine always gets there, however slow the machine).
+const vrtRunGrace = 2 * time.Second
+
+// consumeResumes (lock held): resume events at the head of the trace are taken as soon as what
+// ran before has settled; the resumed goroutine becomes the one everything else waits for.
+func (s *vrtSchedState) consumeResumes() {
+	for s.on && s.pos < len(s.trace) && s.trace[s.pos].Kind == "resume" && !s.awaiting[s.trace[s.pos].G] && s.settled() {
+		ev := s.trace[s.pos]
+		if vrtSchedDebug.Load() {
+			fmt.Printf("SCHED %d: g%d resumes\n", s.pos, ev.G)
+		}
+		s.pos++
+		s.last, s.lastBlk, s.lastAt = ev.G, false, vrtWall()
+	}
 }
 
 // vrtGate: called before every visible operation.
@@ -118,13 +146,13 @@ func vrtGate(kind string) {
 	}
 	me, ok := s.ids[vrtGoid()]
 	if !ok {
-		if vrtSchedDebug {
+		if vrtSchedDebug.Load() {
 			fmt.Printf("SCHED gate %s from unregistered goroutine %d\n", kind, vrtGoid())
 		}
 		s.mu.Unlock()
 		return
 	}
-	if vrtSchedDebug {
+	if vrtSchedDebug.Load() {
 		fmt.Printf("SCHED g%d arrives at %s (pos %d)\n", me, kind, s.pos)
 	}
 	epoch := s.epoch
@@ -137,12 +165,16 @@ func vrtGate(kind string) {
 			s.mu.Unlock()
 			return
 		}
+		s.consumeResumes()
+		if s.pos >= len(s.trace) {
+			continue
+		}
 		ev := s.trace[s.pos]
-		if ev.G == me && s.settled() {
+		if ev.G == me && ev.Kind != "resume" && s.settled() {
 			if ev.Kind != kind && s.diverged == "" {
 				s.diverged = fmt.Sprintf("goroutine %d performs %s where the trace has %s (event %d)", me, kind, ev.Kind, s.pos)
 			}
-			if vrtSchedDebug {
+			if vrtSchedDebug.Load() {
 				fmt.Printf("SCHED %d: g%d %s (trace %s)\n", s.pos, me, kind, ev.Kind)
 			}
 			s.pos++
@@ -176,13 +208,28 @@ func vrtAwaitTurn() {
 	epoch := s.epoch
 	start := vrtWall()
 	s.atGate[me] = true
+	s.awaiting[me] = true
 	defer func() {
 		s.mu.Lock()
 		s.atGate[me] = false
+		s.awaiting[me] = false
 		s.mu.Unlock()
 	}()
 	for s.on && s.epoch == epoch {
-		if (s.pos >= len(s.trace) || s.trace[s.pos].G == me) && s.settled() {
+		if s.pos < len(s.trace) && s.trace[s.pos].Kind == "resume" && s.trace[s.pos].G == me && s.settled() {
+			// the executor went on with the harness here: it is the running goroutine from now on
+			if vrtSchedDebug.Load() {
+				fmt.Printf("SCHED %d: g%d (harness) resumes\n", s.pos, me)
+			}
+			s.pos++
+			s.atGate[me] = false
+			s.awaiting[me] = false
+			s.last, s.lastBlk, s.lastAt = me, false, vrtWall()
+			s.mu.Unlock()
+			return
+		}
+		s.consumeResumes()
+		if (s.pos >= len(s.trace) || (s.trace[s.pos].G == me && s.trace[s.pos].Kind != "resume")) && s.settled() {
 			break
 		}
 		if time.Since(start) > 8*time.Second {
